@@ -335,7 +335,8 @@ def bfs(expand, cfgs, max_depth, acc, procs=None, max_states=None, sample_every=
             frontier = [[]]
             depth = 0
             cfg_states = 0
-            while frontier and depth < max_depth:
+            md = cfg.get('bfs_depth', max_depth) if isinstance(cfg, dict) else max_depth
+            while frontier and depth < md:
                 nxt = []
                 work = [(expand, cfg, h) for h in frontier]
                 for status, hist, res in pool.imap(_bfs_call, work,
